@@ -7,6 +7,9 @@ package quic
 //   framer    sender ledger through the real framer.Append (real DATA_BLOCKED logic)
 //   recv      receiver ledger, harness-made STREAM / RESET_STREAM(_AT) frames
 //   tune      receiver ledger with window auto-tuning (RTT samples, clock steps)
+//   tune-over same, started from a configuration whose initial receive windows EXCEED the
+//             auto-tuning ceilings (Config{InitialStreamReceiveWindow: x} with x above the
+//             default MaxStreamReceiveWindow is accepted by populateConfig unclamped)
 //   loop      SendStream -> (deliver / lose / spurious loss) -> ReceiveStream on the shared
 //             flow controllers, MAX_* frames of the receiver fed back in any order
 
@@ -29,6 +32,7 @@ func TestVerifC04(t *testing.T) {
 		c04Part("framer-conn"),
 		c04Part("recv"),
 		c04Part("tune"),
+		c04Part("tune-over"),
 		c04Part("loop"),
 	}, func(msg string) { t.Fatal(msg) })
 }
@@ -68,6 +72,16 @@ func c04Config(name string, thorough bool) *c04Cfg {
 		}
 	case "tune":
 		c = &c04Cfg{mode: "tune", cell: 10, sndS: 2, sndC: 3, rcvS: 4, rcvC: 6, maxS: 16, maxC: 24, depth: 6}
+		if thorough {
+			c.depth = 8
+		}
+	case "tune-over":
+		// initial window > ceiling on both levels. Sizes chosen so that, with reads of 1 and 3
+		// cells, every relation between the bytes consumed since the last update / in the
+		// current auto-tuning epoch and the thresholds window/4 (update due), window/2
+		// (auto-tuning looks at the epoch), initial-ceiling (outstanding credit above what the
+		// ceiling would allow) is reachable within the depth bound.
+		c = &c04Cfg{mode: "tune", over: true, cell: 10, sndS: 2, sndC: 3, rcvS: 8, rcvC: 10, maxS: 4, maxC: 4, depth: 6}
 		if thorough {
 			c.depth = 8
 		}
@@ -117,6 +131,9 @@ func c04Rule(c *c04Cfg) string {
 	case "recv":
 		return base + "alphabet per stream: STREAM frame (next 1|2 cells, exactly up to the advertised stream limit, 1 byte beyond it, exactly up to / 1 byte beyond the connection limit, gap, old duplicate, each optionally FIN, empty FIN), RESET_STREAM (final = received | +1 cell | beyond the limit) and RESET_STREAM_AT (reliable size 1 cell) incl. duplicates, Read(1 byte|1 cell|all), CancelRead, getControlFrame, connection GetWindowUpdate; reads only issued when the model says they cannot block; oracle: receiver ledger"
 	case "tune":
+		if c.over {
+			base += "start state: initial receive windows ABOVE the auto-tuning ceilings (as Config allows); Read(3 cells) added so that a window update can precede the auto-tuning step inside one epoch; "
+		}
 		return base + "alphabet: STREAM frame (next 2 cells, up to the stream limit, 1 byte beyond), Read(1 cell|all), CancelRead, getControlFrame, connection GetWindowUpdate, RTT sample 10 ms | 1 s, clock step 30 ms | 3 s (auto-tuning thresholds 2..4 RTT lie on both sides); oracle: receiver ledger with the window size read at the moment of each update"
 	case "loop":
 		return base + "alphabet: Write(1|2 cells), popStreamFrame(3 budgets), deliver+ack / lose / spurious-loss(deliver and declare lost) of any popped frame, Read(1 cell|all), CancelRead, getControlFrame (STOP_SENDING delivered at once), connection GetWindowUpdate, delivery of any MAX_STREAM_DATA / MAX_DATA emitted so far (any order, repeatedly), Close, CancelWrite, RESET_STREAM delivery; oracle: sender ledger against the delivered limits + receiver ledger"
@@ -307,7 +324,11 @@ func (w *c04World) opsRecv() []explore.Op {
 			if !tune {
 				ops = append(ops, explore.Op{N: "read", A: s, B: 1})
 			}
-			ops = append(ops, explore.Op{N: "read", A: s, B: w.cfg.cell}, explore.Op{N: "read", A: s, B: 64 * w.cfg.cell})
+			ops = append(ops, explore.Op{N: "read", A: s, B: w.cfg.cell})
+			if w.cfg.over {
+				ops = append(ops, explore.Op{N: "read", A: s, B: 3 * w.cfg.cell})
+			}
+			ops = append(ops, explore.Op{N: "read", A: s, B: 64 * w.cfg.cell})
 		}
 	}
 	for s := 0; s < 2; s++ {
